@@ -674,7 +674,7 @@ func c15LocationForms(c *core.Ctx) {
 	positions := []string{"acs-location", "acs-response-location", "sp-slo-location", "sp-slo-response-location", "idp-sso-location", "idp-slo-response-location", "artifact-resolution", "attribute-service"}
 	for fi, f := range forms {
 		for _, pos := range positions {
-			for _, binding := range []string{saml.HTTPPostBinding, saml.HTTPRedirectBinding, saml.HTTPArtifactBinding, saml.SOAPBinding} {
+			for _, binding := range []string{saml.HTTPPostBinding, saml.HTTPRedirectBinding, saml.HTTPArtifactBinding, saml.SOAPBinding, saml.SOAPBindingV1} {
 				f, pos, binding, fi := f, pos, binding, fi
 				c.Case(fmt.Sprintf("locform/%s/%s/form#%d=%+q", pos, binding[strings.LastIndex(binding, ":")+1:], fi, f), func(t *core.T) {
 					t.NonTrivial()
